@@ -322,7 +322,7 @@ def loader(F, rep):
     # insert keyed by the entry's own key
     for b in F.bodies.values():
         if b.id.endswith("FxCache::insert"):
-            tb = Terms(F, b, inline_depth=0)
+            tb = Terms(F, b, inline_depth=2)      # `let (key, entry) = keyed(entry)` is seen through
             ok = False
             for i, t in b.calls():
                 if parse_callee(t["callee"])[2] == "insert" and "HashMap" in t["callee"]:
@@ -352,8 +352,15 @@ def loader(F, rep):
         tb = Terms(F, b, inline_depth=0)
         for sb, exp in sources(b, tb.operand(t["args"][2])):
             n += 1
-            ok = isinstance(exp, tuple) and exp and exp[0] == "agg" and exp[2] == "Some" and any(
-                isinstance(x, tuple) and x and x[0] == "call" and x[1].endswith("expected_year_month_from_path") for x in subterms(exp))
+            # Some(period) where the period is computed from the file's own path / name: by a function of the loader module or
+            # a std path accessor, or read from a `name` / `path` field — not a constant and not None
+            def path_like(x):
+                if not isinstance(x, tuple) or not x:
+                    return False
+                if x[0] == "call":
+                    return x[1].startswith("cgt_money::loader::") or parse_callee(x[1])[2] in ("file_name", "file_stem", "to_string_lossy", "to_str")
+                return x[0] == "field" and x[2] in ("name", "path", "file_name")
+            ok = isinstance(exp, tuple) and exp and ((exp[0] == "agg" and exp[2] == "Some") or exp[0] == "some") and any(path_like(x) for x in subterms(exp))
             rep.ob("R6", f"{sb.short}:expected-period", ok, "rates file is parsed with Some(period from its file name)" if ok else
                    f"rates parser called with expected period {show(exp)[:60]} (a mislabelled file would be accepted)", b.loc(t["sp"]),
                    key=f"R6:{sb.short}:expected-period")
